@@ -148,6 +148,7 @@ class Contract:
         self.trusted = False
         self.frame_check = True
         self.overrides: dict = {}
+        self.globals: dict = {}
 
     # decorators
     def setup(self, fn=None, label: str = ''):
@@ -433,6 +434,7 @@ def run_paths(registry: Registry, c: Contract, label: str, setup: Callable, max_
         I.load_class_hierarchy(c.module)
         I.label = label
         I.expr_overrides = dict(c.overrides)
+        I.global_overrides = dict(c.globals)
         registry.active = c
         h = Harness(I)
         try:
